@@ -15,12 +15,12 @@ package main
 // which is observed and reported (the model takes it as an input).
 
 import (
-	"os"
 	"context"
 	"errors"
 	"fmt"
 	"io"
 	"log/slog"
+	"os"
 	"strconv"
 	"strings"
 	"sync"
